@@ -5,6 +5,7 @@ import sx
 PID = "C14"
 RUNNER = "impl_m3.py"
 N = {"quick": 1200, "thorough": 40000}
+VM_CROSSCHECK = True
 LEVEL_RULE = ("object graphs: event trees (depth <= 4) in which the same leaf / sub-container / duration object / tempo object is "
               "referenced several times (ids mark identity); tempo objects are direct tempi, trajectories or static trajectories "
               "on any node; operations copy(), destructive_copy(), TempoConverter.convert, EventToMetrizedEvent.convert. Observed: "
